@@ -139,3 +139,22 @@ PROPS["C18"] = dict(module="harness26", go="go1.26.8", pkg="c18", level="explora
                "items in flight at Stop may be dropped: after Stop only order/no-duplication of what is still delivered and termination of the worker are asserted",
                "interleavings are sampled (runtime select choice, 4-8 repeats), not enumerated; the logged trace is the reproduction"],
   units=[dict(name="queue", run="^TestC18Queue$", quick=30000, thorough=300000, shards_quick=1, shards_thorough=16)])
+
+_WALLET_ASSUME = [
+    "the complete wallet is driven through its public API (wallet.Create/OpenWithRetry/Start/SynchronizeRPC) against internal/simchain, a model backend implementing chain.Interface; "
+    "notifications reach the wallet through an unbounded FIFO feeding an unbuffered channel and the harness waits on a sentinel instead of sleeping",
+    "the model backend is ideal in relevance: it reports every transaction paying a watched address or spending an output that pays one, however old (real backends may miss re-confirmations of spends they stopped watching)",
+    "regtest parameters (no wait for backend-current), scrypt N=16 via SetSecretKeyGen, fork points at or above the wallet's birthday block, new branch at least as long as the old one",
+]
+
+PROPS["C15"] = dict(
+    pkg="c15", level="exploration",
+    rule=("rapid draws a chain evolution of 1-14 steps (40 thorough) after an initial chain of 8-40 blocks around the wallet birthday: extend 1-5 blocks (mempool and new funding "
+          "transactions to four address types, spends of wallet coins, coinbases paying the wallet), reorg depth 1-8 with a new branch re-confirming a subset in other blocks, stale "
+          "and repeated disconnect/connect notifications, mempool announcements, and stop/evolve-while-down/restart; both delivery styles (btcd: RelevantTx+BlockConnected in either "
+          "order; bitcoind: FilteredBlockConnected+BlockConnected). After EVERY step (sentinel-quiesced): SyncedTo = backend tip, remembered hash of every height from the birthday "
+          "block to the tip = best chain, every confirmed transaction of the store sits in a best-chain block containing it, CalculateBalance(0,1,2,6) and the status of every "
+          "relevant transaction equal the harness ledger; repeated after a final reopen. Non-trivial = reorg of depth >= 2 touching a block with a wallet transaction, or a reorg while stopped."),
+    assumptions=_WALLET_ASSUME,
+    units=[dict(name="tip", run="^TestC15TipFollowsBackend$", quick=500, thorough=2500, shards_quick=2, shards_thorough=16, timeout=1500)],
+)
